@@ -473,10 +473,6 @@ theorem hr_tail_post {m n i : Nat} (U U1 : DMat K) (rv1 : Array K) (sc s g : K)
       rw [hrel, if_pos ⟨rfl, hc1, hc2⟩]; field_simp)
     hu S1' S2' hh hsc (by rw [← hg]; ring)
 
-
-variable {K : Type} [Field K] [LinearOrder K] [IsStrictOrderedRing K] (sq : K → K)
-local notation "𝕊" => (Gama.LS.fieldScalar sq)
-
 /-- **right Householder half-step** -/
 theorem hhRow_stmt : HhRowStmt sq := by
   intro hsq hsq0 m n i U rv1 f0 h0 r hU hv hi1 hin h
